@@ -37,7 +37,7 @@ ASSUMPTIONS = [
     "a front-end crash or error exit is an outcome and is compared like any other",
 ]
 PROBES = ["nonempty_tables", "hashseed_varied", "dirent_varied", "heap_varied", "ws_sibling", "ws_otherfs", "ws_relative", "ws_symlink",
-          "cwd_varied", "pyopt_varied", "ws_symlink_inner", "ws_named_externs", "ws_named_src", "ws_named_default",
+          "cwd_varied", "pyopt_varied", "ws_symlink_inner", "ws_named_externs", "ws_named_src", "ws_named_default", "ws_named_glob", "ws_symlink_sub", "history_other_settings",
           "history_same_project", "history_other_project", "history_crashed_run", "multi_file_project", "corpus_project",
           "generated_project", "sub_run", "sub_semantic", "taint_phase_ran"]
 # the same check again, smaller, in interpreters started with assertions stripped (python -O / PYTHONOPTIMIZE=1)
@@ -107,7 +107,7 @@ def gen_knobs(rng, tier):
 
 
 STRATIFY = True
-WS_KINDS = ["sibling", "otherfs", "relative", "symlink", "symlink_inner", "named_externs", "named_src", "named_default"]
+WS_KINDS = ["sibling", "otherfs", "relative", "symlink", "symlink_inner", "named_externs", "named_src", "named_default", "named_glob", "symlink_sub"]
 DIM_CYCLE = ["ws", "hashseed", "history", "ws", "dirent", "pyopt", "ws", "heap", "cwd"]
 
 
@@ -128,11 +128,15 @@ def _gen_variant(rng, baseline, forced_dim=None, forced_ws=None):
         v["heap_pad"] = rng.choice([1, 17, 1000, 4099])
     if "ws" in dims:
         v["ws"] = forced_ws or rng.choice(WS_KINDS)
+        if v["ws"] == "symlink_sub":
+            # single output directories of the workspace are links to another disk, and another project was analysed before
+            v["history"] = [{"proj": "B"}]
         if v["ws"] == "symlink_inner":
             # the workspace directory itself is a link (results kept elsewhere) and another project was analysed into it before
             v["history"] = [{"proj": "B"}] + ([{"proj": "A"}] if rng.random() < 0.3 else [])
     if "history" in dims:
-        v["history"] = [rng.choice([{"proj": "A"}, {"proj": "A"}, {"proj": "B"}, {"proj": "B", "crash_at": rng.choice([3, 15, 40, 90])}])
+        v["history"] = [rng.choice([{"proj": "A"}, {"proj": "A"}, {"proj": "B"}, {"proj": "B", "crash_at": rng.choice([3, 15, 40, 90])},
+                                    {"proj": "B", "settings": "alt"}])
                         for _ in range(rng.choice([1, 1, 2]))]
     return v
 
@@ -201,6 +205,8 @@ def _run_child(B, n, spec, hashseed, pyopt=0):
         env["PYTHONOPTIMIZE"] = str(pyopt)
     env["HOME"] = os.path.join(B, "home")
     env["MPLCONFIGDIR"] = os.path.join(B, "home", "mpl")
+    if os.path.isdir(os.path.join(B, "tmp")):
+        env["TMPDIR"] = os.path.join(B, "tmp")       # the temporary directory of the simulated machine (survives between its runs)
     os.makedirs(env["HOME"], exist_ok=True)
     try:
         r = subprocess.run(cmd, env=env, capture_output=True, text=True, timeout=600, cwd=B)
@@ -233,6 +239,10 @@ def execute(trace):
         if not files or len(variants) < 2:
             return {"violation": None, "probes": {}, "states": set(), "trans": set(), "steps": 0, "log": digest_hex("trivial")}
         projA, projB = os.path.join(B, "projA"), os.path.join(B, "projB")
+        # the settings directory of this simulated machine: a copy (time stamps kept) of the worker's
+        run_settings = os.path.join(B, "settings")
+        shutil.copytree(_settings, run_settings)
+        os.makedirs(os.path.join(B, "tmp"), exist_ok=True)
         _write_project(projA, files)
         _write_project(projB, other or [{"path": "o.py", "content": "o = 1\n"}])
         hit("generated_project" if k["population"] == "generated" else "corpus_project")
@@ -272,9 +282,17 @@ def execute(trace):
                 os.makedirs(os.path.join(B, "ws_inner_target"), exist_ok=True)
                 if not os.path.lexists(os.path.join(w_arg, "lian_workspace")):
                     os.symlink(os.path.join(B, "ws_inner_target"), os.path.join(w_arg, "lian_workspace"))
+            elif wsk == "symlink_sub":
+                w_arg = os.path.join(B, "ws_sub")
+                for n_ in ("semantic_p1", "semantic_p2", "semantic_p3"):
+                    os.makedirs(os.path.join(B, "ws_sub_targets", n_), exist_ok=True)
+                    os.makedirs(os.path.join(w_arg, "lian_workspace"), exist_ok=True)
+                    if not os.path.lexists(os.path.join(w_arg, "lian_workspace", n_)):
+                        os.symlink(os.path.join(B, "ws_sub_targets", n_), os.path.join(w_arg, "lian_workspace", n_))
             elif wsk.startswith("named_"):
-                # a location whose path contains a name lian itself uses for something
-                w_arg = os.path.join(B, {"named_externs": "externs", "named_src": "src", "named_default": "old_lian_workspace_runs"}[wsk], "ws")
+                # a location whose path contains a name lian itself uses for something, or characters with a meaning elsewhere
+                w_arg = os.path.join(B, {"named_externs": "externs", "named_src": "src", "named_default": "old_lian_workspace_runs",
+                                         "named_glob": "run[1] *?x"}[wsk], "ws")
             else:
                 real = os.path.join(B, "ws_real_target")
                 os.makedirs(real, exist_ok=True)
@@ -285,7 +303,9 @@ def execute(trace):
             w_abs = os.path.realpath(os.path.join(cwd, w_arg))
             appended = "lian_workspace" not in w_arg      # the documented rule: the default name is appended unless the value contains it
             W = os.path.join(w_abs, "lian_workspace") if appended else w_abs
-            if os.path.islink(W):
+            if wsk == "symlink_sub":
+                W_real = W
+            elif os.path.islink(W):
                 for n_ in os.listdir(W):      # keep the link, empty what it points to
                     p_ = os.path.join(W, n_)
                     shutil.rmtree(p_, ignore_errors=True) if os.path.isdir(p_) and not os.path.islink(p_) else os.remove(p_)
@@ -307,14 +327,25 @@ def execute(trace):
 
             def spec_for(proj, crash_at=None):
                 argv = lianrun.build_argv({"sub": k["sub"], "lang": lang, "force": True, "workspace": w_arg,
-                                           "inputs": [proj], "flags": k["flags"], "stock_settings": k.get("stock_settings")}, _settings)
+                                           "inputs": [proj], "flags": k["flags"], "stock_settings": k.get("stock_settings")}, run_settings)
                 return {"argv": argv, "cwd": cwd, "dirent": v.get("dirent", "natural"), "heap_pad": v.get("heap_pad", 0),
-                        "settings": _settings, "stock_settings": k.get("stock_settings", False), "ws": W, "mask": masks,
+                        "settings": run_settings, "stock_settings": k.get("stock_settings", False), "ws": W, "mask": masks,
                         "crash_at": crash_at}
             # ---- machine history: earlier separate processes into the same workspace path
             for h in v.get("history", []):
                 n_child += 1
+                if h.get("settings") == "alt" and not k.get("stock_settings"):
+                    # the other project was analysed with other rules in the same settings files; afterwards the files are put
+                    # back as they were, time stamps included (cp -p, rsync -t, a re-pointed link)
+                    with open(os.path.join(run_settings, "entry.yaml"), "w") as f_:
+                        f_.write('- method_list: ["%unit_init", "helper", "run"]\n')
+                    with open(os.path.join(run_settings, "source.yaml"), "w") as f_:
+                        f_.write(lianrun.SETTINGS_FILES["source.yaml"].replace("name: source", "name: helper"))
+                    hit("history_other_settings")
                 _run_child(B, n_child, spec_for(projA if h["proj"] == "A" else projB, h.get("crash_at")), v.get("hashseed", 0), v.get("pyopt", 0))
+                if h.get("settings") == "alt" and not k.get("stock_settings"):
+                    for n_ in ("entry.yaml", "source.yaml"):
+                        shutil.copy2(os.path.join(_settings, n_), os.path.join(run_settings, n_))
                 hit({"A": "history_same_project", "B": "history_crashed_run" if h.get("crash_at") else "history_other_project"}[h["proj"]])
             n_child += 1
             rec = _run_child(B, n_child, spec_for(projA), v.get("hashseed", 0), v.get("pyopt", 0))
